@@ -1,3 +1,4 @@
+import H2.Proofs.MsgRefineDecide
 import H2.Proofs.Msg
 import H2.Proofs.MsgRefine
 /-!
@@ -102,5 +103,123 @@ theorem demo_vocab : NoTrailerCL demoTr := by unfold NoTrailerCL; decide +kernel
 is well-formed because the model dispatches it -/
 example : WFRequest demoHs demoTr 3 :=
   (dispatched_iff_wf {} demoHs demoTr 3 demo_limits demo_vocab).mp (by decide +kernel)
+
+/-! ## APPEND to `lean/H2/Props/C20.lean` (before `end H2.Props.C20`); needs the extra import line
+`import H2.Proofs.MsgRefineDecide`  (which brings in `H2.Proofs.MsgRefineLoop` and `H2.Proofs.MsgRefineSplit`). -/
+
+/-! ## the message model abstracts the full server model beyond the single field step -/
+
+section FullModel
+open H2.Server H2.Server.Lock
+
+/-- **loop refinement**: on the octets of one header-bearing frame the full model's `fieldLoop` is, through `msgSt` / `absErr`,
+`Msg.loop` over the fields the decoder yields from them (`decRun`), followed by what the end of the decoder's pass means
+(`loopSpec`): same verdict — accepted, RST_STREAM with the same code, GOAWAY with the same code — and same per-stream state -/
+theorem loop_is_full_model (fuel : Nat) (s : Srv) (st : Strm) (bs eh : Bool) (fp : Nat) (b : Bytes) (hcl : 0 ≤ st.contentLength) :
+    absOut (fieldLoop fuel s st bs eh fp b) = loopSpec s.cfg eh (msgSt st) (decRun fuel s.dec bs fp b) :=
+  fieldLoop_refines fuel s st bs eh fp b hcl
+
+/-- **across frames**: a header block cut into HEADERS + CONTINUATION pieces and fed through the `prevHdr` carry-over ends with
+the verdict of the whole block in one frame and, when accepted, the same `msgSt` and decoder state. `cutsOK`: no piece leaves
+more octets of an unfinished field than the server carries over (F68's bound), by design a different verdict -/
+theorem split_is_whole (ps : List Bytes) (s : Srv) (st : Strm) (hne : ps ≠ []) (hg : st.Good) (hc : cutsOK s st ps) :
+    absFin (feedBlock s st ps) = absFin (feedBlock s st [ps.flatten]) :=
+  feedBlock_whole ps s st hne hg hc
+
+/-- **decision**: at END_STREAM the full model's `dispatchOrSend` emits exactly one more output: the dispatch record with the
+message model's request view when the message model's last clause (`content-length` against the octets received) says
+dispatch, RST_STREAM(PROTOCOL_ERROR) otherwise -/
+theorem decision_is_full_model (r : R) (uid : Nat) (st : Strm) (he : AtEnd st) (hg : st.Good) :
+    (dispatchOrSend r uid st).out = r.out ++
+      [match lastClause (msgSt st) st.recvBody with
+       | .dispatch => dispOut st.id (msgSt st).view st.body
+       | _ => .rst st.id Gen.c_ProtocolError] :=
+  dispatchOrSend_decision r uid st he hg
+
+/-- **the full model dispatches iff the request is well-formed** — for a request that is one HEADERS frame
+(END_HEADERS | END_STREAM) on a stream the stream loop has just created (`Fresh`), whose block decodes completely to the
+fields `fs` (`decRun … = (fs, .clean d)`), within the limits: the body of the stream loop (`knownStream`) hands the request to
+the handler, with the request view of the message model, iff `WFRequest`; otherwise the handler never runs -/
+theorem one_frame_dispatched_iff_wf (r : R) (uid : Nat) (fr : H2.Frame.Frame) (st : Strm) (prio : Option (Nat × Nat)) (frag : Bytes)
+    (hg : r.getStrm uid = some st) (hf : Fresh st) (ht : fr.typ = Gen.c_FrameHeaders)
+    (hb : fr.body = .headers true true prio frag) (heh : H2.Frame.hasFlag fr.flags Gen.c_FlagEndHeaders = true)
+    (hes : H2.Frame.hasFlag fr.flags Gen.c_FlagEndStream = true)
+    (hprio : ∀ dep w, prio = some (dep, w) → (dep == st.id) = false)
+    (hp : headersPrelude r fr = (r, true))
+    (fs : List H2.Hpack.Field) (d : H2.Hpack.DecState) (hdec : decRun (frag.length + 1) r.s.dec true 0 frag = (fs, .clean d))
+    (hl : WithinLimits (cfgOf r.s.cfg) (fs.map kv) [] 0) :
+    (WFRequest (fs.map kv) [] 0 →
+      ∃ v, requestView (cfgOf r.s.cfg) (fs.map kv) [] 0 = some v ∧
+        (knownStream r uid fr false).out = r.out ++ [dispOut st.id v st.body]) ∧
+    (¬ WFRequest (fs.map kv) [] 0 →
+      (∃ e, (handleFrame r uid fr).2 = some e ∧ absErr e = .rst Gen.c_ProtocolError) ∨
+      (knownStream r uid fr false).out = r.out ++ [.rst st.id Gen.c_ProtocolError]) := by
+  have hnt : NoTrailerCL [] := by intro f hf; cases hf
+  have hiff := dispatched_iff_wf (cfgOf r.s.cfg) (fs.map kv) [] 0 hl hnt
+  constructor
+  · intro hwf
+    have hv := hiff.mpr hwf
+    obtain ⟨m, hm, hps, _, _⟩ := (validate_dispatch_iff _ _ _ _).mp hv
+    have := request_one_frame_accepted r uid fr st prio frag hg hf ht hb heh hes hprio hp fs d hdec m hm hps
+    rw [hv] at this
+    exact ⟨m.view, this.2 rfl, this.1⟩
+  · intro hwf
+    have hv := malformed_refused (cfgOf r.s.cfg) (fs.map kv) [] 0 hl hnt hwf
+    by_cases hacc : ∃ m, loop (cfgOf r.s.cfg) St.init (fs.map kv) = .ok m ∧ pseudoOK m = true
+    · obtain ⟨m, hm, hps⟩ := hacc
+      have := request_one_frame_accepted r uid fr st prio frag hg hf ht hb heh hes hprio hp fs d hdec m hm hps
+      rw [hv] at this
+      exact .inr this.1
+    · have href : ∀ m, loop (cfgOf r.s.cfg) St.init (fs.map kv) = .ok m → pseudoOK m = false := by
+        intro m hm
+        cases hps : pseudoOK m
+        · rfl
+        · exact absurd ⟨m, hm, hps⟩ hacc
+      obtain ⟨e, he1, he2⟩ := request_one_frame_refused r uid fr st true prio frag hg hf ht hb heh hprio fs d hdec [] 0 href
+      exact .inl ⟨e, he1, by rw [he2, hv]⟩
+
+/-! non-vacuity: `GET / https` (RFC 7541 static entries 2, 7, 4) in one HEADERS frame on stream 1 of a connection whose stream
+loop has just created the stream; the same with `:path` left out -/
+
+def demoStrm : Strm := { uid := 0, id := 1, window := 65535, origType := Gen.c_FrameHeaders }
+def demoR : R := { s := { strms := [demoStrm], nextUid := 1, lastID := 1, openStreams := 1 } }
+def demoFrame (frag : Bytes) : H2.Frame.Frame :=
+  { typ := Gen.c_FrameHeaders, flags := 5, stream := 1, length := frag.length, body := .headers true true none frag }
+
+theorem demo_fresh : Fresh demoStrm := ⟨rfl, rfl, rfl, rfl, rfl, rfl, rfl, rfl⟩
+example : demoR.getStrm 0 = some demoStrm := rfl
+example : (decRun 4 demoR.s.dec true 0 [0x82, 0x87, 0x84]).1.map kv =
+    [(Gen.s_StringMethod, [71, 69, 84]), (Gen.s_StringScheme, [104, 116, 116, 112, 115]), (Gen.s_StringPath, [47])] := by decide +kernel
+example : (decRun 4 demoR.s.dec true 0 [0x82, 0x87, 0x84]).2 = .clean {} := by decide +kernel
+example : validate {} ((decRun 4 demoR.s.dec true 0 [0x82, 0x87, 0x84]).1.map kv) [] 0 = .dispatch := by decide +kernel
+example : validate {} ((decRun 3 demoR.s.dec true 0 [0x82, 0x87]).1.map kv) [] 0 = .rst Gen.c_ProtocolError := by decide +kernel
+/-- the full model itself on the two frames (what the theorems predict: one dispatch record / one RST_STREAM) -/
+example : ((knownStream demoR 0 (demoFrame [0x82, 0x87, 0x84]) false).out.map Out.toString) =
+    ["dispatch(1,m=474554,p=2f,a=-,f=-,b=0:0:0)"] := by decide +kernel
+example : ((knownStream demoR 0 (demoFrame [0x82, 0x87]) false).out.map Out.toString) = ["RST(1,1)"] := by decide +kernel
+/-- the hypotheses of `one_frame_dispatched_iff_wf` hold of the demo: `headersPrelude` lets the frame through unchanged -/
+example : headersPrelude demoR (demoFrame [0x82, 0x87, 0x84]) = (demoR, true) := rfl
+example (hl : WithinLimits (cfgOf demoR.s.cfg) ((decRun 4 demoR.s.dec true 0 [0x82, 0x87, 0x84]).1.map kv) [] 0) :
+    WFRequest ((decRun 4 demoR.s.dec true 0 [0x82, 0x87, 0x84]).1.map kv) [] 0 →
+      ∃ v, requestView (cfgOf demoR.s.cfg) ((decRun 4 demoR.s.dec true 0 [0x82, 0x87, 0x84]).1.map kv) [] 0 = some v ∧
+        (knownStream demoR 0 (demoFrame [0x82, 0x87, 0x84]) false).out = demoR.out ++ [dispOut 1 v {}] :=
+  (one_frame_dispatched_iff_wf demoR 0 (demoFrame [0x82, 0x87, 0x84]) demoStrm none [0x82, 0x87, 0x84] rfl demo_fresh rfl rfl
+    (by decide) (by decide) (fun _ _ h => by cases h) rfl _ {} (by decide +kernel) hl).1
+/-- a block cut in the middle of a literal: `cutsOK` holds and the pieces give what the whole gives -/
+example : (absFin (feedBlock demoR.s demoStrm [[0x82, 0x87, 0x44, 0x02, 0x2f], [0x61]])).toOption.map (·.1.path) = some [47, 97] := by
+  decide +kernel
+example : (absFin (feedBlock demoR.s demoStrm [[0x82, 0x87, 0x44, 0x02, 0x2f, 0x61]])).toOption.map (·.1.path) = some [47, 97] := by
+  decide +kernel
+
+/-- why `cutsOK` is there (F68, by design): with a list limit of 1 octet a first piece holding 6 octets of an unfinished field is
+answered GOAWAY(ENHANCE_YOUR_CALM) at once, while the same octets in one frame with END_HEADERS are a truncated block:
+GOAWAY(COMPRESSION_ERROR) -/
+def tightSrv : Srv := { cfg := { maxHeaderList := 1 } }
+example : (match absFin (feedBlock tightSrv demoStrm [[0x40, 0x7f, 97, 97, 97, 97], [97]]) with | .error v => some v | .ok _ => none) =
+    some (.goAway Gen.c_EnhanceYourCalm) := by decide +kernel
+example : (match absFin (feedBlock tightSrv demoStrm [[0x40, 0x7f, 97, 97, 97, 97, 97]]) with | .error v => some v | .ok _ => none) =
+    some (.goAway Gen.c_CompressionError) := by decide +kernel
+
+end FullModel
 
 end H2.Props.C20
